@@ -1299,7 +1299,11 @@ func (w *World) Exec(o *Op) *Obs {
 	}
 	r := gw.Do(w.addr(), req)
 	if w.Hook != nil {
-		obs.Events = w.Hook.Drain(6*time.Millisecond, 400*time.Millisecond)
+		first := 6 * time.Millisecond
+		if r.Status/100 == 2 && req.Method != "GET" && req.Method != "HEAD" {
+			first = 50 * time.Millisecond // a record is (probably) on its way
+		}
+		obs.Events = w.Hook.DrainFirst(6*time.Millisecond, 400*time.Millisecond, first)
 		obs.EventVids = w.Hook.LastVids()
 	}
 	obs.Raw = r
